@@ -159,8 +159,13 @@ def gen(rng, tier, ctx):
         q["root"], q["vars"] = "Holder", {"x": "Holder", "y": "Tag"}
         q["cond"] = ["cmp", rng.choice(CMP), ["path", "x", "extra"], ["path", "y", "w"]]
     elif kind == "join_scalar_same":
-        q["root"], q["vars"] = "Leaf", {"x": "Leaf", "y": "Leaf"}
-        q["cond"] = ["cmp", rng.choice(CMP), ["path", "x", "n"], ["path", "y", "k"]]
+        if rng.random() < 0.4:
+            # two variables whose classes inherit from each other: they share the columns of the base table
+            q["root"], q["vars"] = "Holder", {"x": "Holder", "y": "SubHolder"}
+            q["cond"] = ["cmp", rng.choice(CMP), ["path", "x", "extra"], ["path", "y", "extra"]]
+        else:
+            q["root"], q["vars"] = "Leaf", {"x": "Leaf", "y": "Leaf"}
+            q["cond"] = ["cmp", rng.choice(CMP), ["path", "x", "n"], ["path", "y", "k"]]
     elif kind == "join_rel_same":
         q["root"], q["vars"] = "Holder", {"x": "Holder", "y": "Holder"}
         q["cond"] = ["cmp", "==", ["path", "x", "leaf"], ["path", "y", "other"]]
